@@ -47,12 +47,16 @@ type absGet struct {
 	V    []int  `json:"v"`
 }
 type obsMask struct {
-	Nil   bool  `json:"nil"`
-	Paths []int `json:"paths"` // 1-based indices of top-level fields; 0 = a path that names no field
+	Nil    bool  `json:"nil"`
+	Paths  []int `json:"paths"`  // 1-based indices of top-level fields selected whole; 0 = a path that names no field
+	Nested []int `json:"nested"` // top-level fields of which only sub-fields are selected ("states.direction")
+
+	sub map[int]map[string]bool // field index -> selected child names
 }
 type obsChange struct {
 	Name string `json:"name"`
 	V    []int  `json:"v"`
+	Ct   string `json:"ct"` // change_time relative to the opening of the stream: before-open | after-open | none
 }
 type obsStream struct {
 	Sid     int         `json:"sid"`
@@ -80,6 +84,7 @@ type obs struct {
 	Post    absGet      `json:"post"`
 	Resp    []int       `json:"resp"`
 	Mask    obsMask     `json:"mask"`
+	Sub     []int       `json:"sub"` // per top-level field in mask.nested: the field of the unmasked Get restricted to the selected sub-fields
 	Val     int         `json:"val"`
 	ValKind string      `json:"valkind"`
 	Streams []obsStream `json:"streams"`
@@ -142,6 +147,7 @@ type pullStream struct {
 	nread   int
 	pending int // successful non-changing updates since opened / last awaited
 	vopen   []int
+	topen   time.Time // taken just before the Pull was issued
 	cancel  context.CancelFunc
 	ch      chan streamEvent
 	ended   string
@@ -197,48 +203,101 @@ func errCode(err error) (code, panicked string) {
 }
 
 func (s *session) fullGet() absGet {
+	g, _ := s.fullGetMsg()
+	return g
+}
+
+func (s *session) fullGetMsg() (absGet, proto.Message) {
 	req := s.request(s.tr.get, s.tr.getName, routeNames[0])
 	m, err := s.unary(s.tr.get, req)
 	code, _ := errCode(err)
-	return absGet{Ok: err == nil, Code: code, V: absMsg(s.tr.res, m)}
+	return absGet{Ok: err == nil, Code: code, V: absMsg(s.tr.res, m)}, m
 }
 
-func (s *session) mask(g genMask, allowUnknown bool) (*fieldmaskpb.FieldMask, obsMask) {
+// mask turns a generated selector list into a field mask.  x in 0..19: top-level field x mod n; 90: a path naming
+// no field (update masks); 20..59 (read masks): field (x-20) mod 8 mod n, and if that field is a message (or a list
+// of messages) its child number (x-20)/8 only: "field.child".  A field selected whole absorbs its sub-selections.
+func (s *session) mask(g genMask, forRead bool) (*fieldmaskpb.FieldMask, obsMask) {
 	if g.Nil {
-		return nil, obsMask{Nil: true, Paths: []int{}}
+		return nil, obsMask{Nil: true, Paths: []int{}, Nested: []int{}}
 	}
-	nf := s.tr.res.Fields().Len()
-	fm := &fieldmaskpb.FieldMask{}
-	om := obsMask{Paths: []int{}}
-	seen := map[int]bool{}
+	fields := s.tr.res.Fields()
+	nf := fields.Len()
+	whole := map[int]bool{}
+	var order []int
+	sub := map[int]map[string]bool{}
 	for _, x := range g.Sel {
-		idx := x%nf + 1
-		if x >= 90 {
-			if !allowUnknown {
+		switch {
+		case x >= 90:
+			if !forRead && !whole[0] {
+				whole[0] = true
+				order = append(order, 0)
+			}
+		case x >= 20 && forRead:
+			idx := (x-20)%8%nf + 1
+			fd := fields.Get(idx - 1)
+			if fd.Message() != nil && !fd.IsMap() && fd.Message().Fields().Len() > 0 {
+				child := fd.Message().Fields().Get(((x - 20) / 8) % fd.Message().Fields().Len())
+				if sub[idx] == nil {
+					sub[idx] = map[string]bool{}
+					order = append(order, -idx)
+				}
+				sub[idx][string(child.Name())] = true
 				continue
 			}
-			idx = 0
+			fallthrough
+		default:
+			idx := x%nf + 1
+			if x >= 20 {
+				idx = (x-20)%8%nf + 1
+			}
+			if !whole[idx] {
+				whole[idx] = true
+				order = append(order, idx)
+			}
 		}
-		if seen[idx] {
-			continue
-		}
-		seen[idx] = true
-		om.Paths = append(om.Paths, idx)
-		if idx == 0 {
+	}
+	fm := &fieldmaskpb.FieldMask{}
+	om := obsMask{Paths: []int{}, Nested: []int{}, sub: map[int]map[string]bool{}}
+	for _, idx := range order {
+		switch {
+		case idx == 0:
+			om.Paths = append(om.Paths, 0)
 			fm.Paths = append(fm.Paths, "verif_no_such_field")
-		} else {
-			fm.Paths = append(fm.Paths, string(s.tr.res.Fields().Get(idx-1).Name()))
+		case idx > 0:
+			om.Paths = append(om.Paths, idx)
+			fm.Paths = append(fm.Paths, string(fields.Get(idx-1).Name()))
+		case !whole[-idx]:
+			om.Nested = append(om.Nested, -idx)
+			om.sub[-idx] = sub[-idx]
+			fd := fields.Get(-idx - 1)
+			for i := 0; i < fd.Message().Fields().Len(); i++ {
+				if c := string(fd.Message().Fields().Get(i).Name()); sub[-idx][c] {
+					fm.Paths = append(fm.Paths, string(fd.Name())+"."+c)
+				}
+			}
 		}
 	}
 	return fm, om
 }
 
-func (s *session) changesOf(m proto.Message) []obsChange {
+func (s *session) changesOf(ps *pullStream, m proto.Message) []obsChange {
 	var res []obsChange
 	list := m.ProtoReflect().Get(s.tr.changes).List()
 	for i := 0; i < list.Len(); i++ {
 		ch := list.Get(i).Message()
-		c := obsChange{V: zeros(s.tr.res.Fields().Len())}
+		c := obsChange{V: zeros(s.tr.res.Fields().Len()), Ct: "none"}
+		if ct := ch.Descriptor().Fields().ByName("change_time"); ct != nil && ct.Message() != nil &&
+			ct.Message().FullName() == "google.protobuf.Timestamp" && ch.Has(ct) {
+			tm := ch.Get(ct).Message()
+			sec := tm.Get(tm.Descriptor().Fields().ByName("seconds")).Int()
+			nanos := tm.Get(tm.Descriptor().Fields().ByName("nanos")).Int()
+			if time.Unix(sec, nanos).Before(ps.topen) {
+				c.Ct = "before-open"
+			} else {
+				c.Ct = "after-open"
+			}
+		}
 		if s.tr.chgName != nil {
 			c.Name = ch.Get(s.tr.chgName).String()
 		}
@@ -266,7 +325,7 @@ func (s *session) await(ps *pullStream, want []int) (msgs []obsChange, timedOut 
 				ps.ended, _ = errCode(ev.err)
 				return msgs, true
 			}
-			cs := s.changesOf(ev.msg)
+			cs := s.changesOf(ps, ev.msg)
 			msgs = append(msgs, cs...)
 			ps.nread += len(cs)
 			if want == nil {
@@ -300,7 +359,7 @@ func (s *session) drain(ps *pullStream) []obsChange {
 				ps.ended, _ = errCode(ev.err)
 				return msgs
 			}
-			msgs = append(msgs, s.changesOf(ev.msg)...)
+			msgs = append(msgs, s.changesOf(ps, ev.msg)...)
 		case <-timer.C:
 			ps.done = true
 			ps.ended = "harness-timeout-waiting-for-stream-end"
@@ -321,7 +380,7 @@ func (s *session) open(name string, uo bool, vopen []int) *pullStream {
 	}
 	ctx, cancel := context.WithCancel(context.Background())
 	s.nextSid++
-	ps := &pullStream{sid: s.nextSid, name: name, uo: uo, vopen: vopen, cancel: cancel, ch: make(chan streamEvent, 4096)}
+	ps := &pullStream{sid: s.nextSid, name: name, uo: uo, vopen: vopen, topen: time.Now(), cancel: cancel, ch: make(chan streamEvent, 4096)}
 	for len(listenCh) > 0 {
 		<-listenCh
 	}
@@ -371,10 +430,19 @@ func (s *session) closeAll() {
 }
 
 func (s *session) pickValue(val int) (proto.Message, string) {
-	if val >= 5 && len(s.st.bad) > 0 {
+	if (val == 5 || val == 6) && len(s.st.bad) > 0 {
 		return s.st.bad[(val-5)%len(s.st.bad)], "bad"
 	}
-	return s.st.values[(val-1+len(s.st.values))%len(s.st.values)], "good"
+	return s.st.values[s.goodIndex(val)], "good"
+}
+
+// goodIndex: value indices 1-4 and 7, 8 select the table's values 0-3 and 4, 5 (modulo their number)
+func (s *session) goodIndex(val int) int {
+	i := val - 1
+	if val >= 7 {
+		i = val - 3
+	}
+	return ((i % len(s.st.values)) + len(s.st.values)) % len(s.st.values)
 }
 
 func (s *session) run(h genHist) {
@@ -391,21 +459,25 @@ func (s *session) run(h genHist) {
 			break
 		}
 		name := routeNames[((op.Name%len(routeNames))+len(routeNames))%len(routeNames)]
-		o := obs{Tgt: s.tg.ID, Hist: h.N, Step: k + 1, Op: op.Op, Nf: nf, Name: name, Code: "OK", Resp: zeros(nf),
-			Mask: obsMask{Nil: true, Paths: []int{}}, Streams: []obsStream{}}
+		o := obs{Tgt: s.tg.ID, Hist: h.N, Step: k + 1, Op: op.Op, Nf: nf, Name: name, Code: "OK", Resp: zeros(nf), Sub: zeros(nf),
+			Mask: obsMask{Nil: true, Paths: []int{}, Nested: []int{}}, Streams: []obsStream{}}
 		hx.Current(map[string]any{"target": s.tg.ID, "hist": h.N, "step": k + 1, "op": op})
-		o.Pre = s.fullGet()
+		var preMsg proto.Message
+		o.Pre, preMsg = s.fullGetMsg()
 		switch op.Op {
 		case "Get":
 			req := s.request(s.tr.get, s.tr.getName, name)
-			fm, om := s.mask(op.Mask, false)
+			fm, om := s.mask(op.Mask, true)
 			if s.tr.getMask == nil {
-				fm, om = nil, obsMask{Nil: true, Paths: []int{}}
+				fm, om = nil, obsMask{Nil: true, Paths: []int{}, Nested: []int{}}
 			}
 			if fm != nil {
 				req.Set(s.tr.getMask, protoreflect.ValueOfMessage(fm.ProtoReflect()))
 			}
 			o.Mask = om
+			for _, idx := range om.Nested {
+				o.Sub[idx-1] = absSubField(s.tr.res, preMsg, idx-1, om.sub[idx])
+			}
 			m, err := s.unary(s.tr.get, req)
 			o.Code, o.Panic = errCode(err)
 			o.Resp = absMsg(s.tr.res, m)
@@ -421,9 +493,9 @@ func (s *session) run(h genHist) {
 				o.Note = "settling update appended by the harness"
 			}
 			req.Set(s.tr.updValue, protoreflect.ValueOfMessage(proto.Clone(v).ProtoReflect()))
-			fm, om := s.mask(op.Mask, true)
+			fm, om := s.mask(op.Mask, false)
 			if s.tr.updMask == nil {
-				fm, om = nil, obsMask{Nil: true, Paths: []int{}}
+				fm, om = nil, obsMask{Nil: true, Paths: []int{}, Nested: []int{}}
 			}
 			if fm != nil {
 				req.Set(s.tr.updMask, protoreflect.ValueOfMessage(fm.ProtoReflect()))
@@ -435,7 +507,7 @@ func (s *session) run(h genHist) {
 			o.Post = s.fullGet()
 			changed := err == nil && o.Pre.Ok && !sameVec(o.Resp, o.Pre.V)
 			if err == nil && kind == "good" {
-				s.lastVal = (op.Val-1+len(s.st.values))%len(s.st.values) + 1
+				s.lastVal = s.goodIndex(op.Val) + 1
 			}
 			for _, ps := range s.streams {
 				sn := s.snapshot(ps)
@@ -465,6 +537,9 @@ func (s *session) run(h genHist) {
 					ops = ops[:k+1]
 					for i := 1; i <= len(s.st.values); i++ {
 						v := (s.lastVal+i-1)%len(s.st.values) + 1 // start with a value other than the last one written
+						if v >= 5 {
+							v += 2 // table values 4, 5 are value indices 7, 8
+						}
 						ops = append(ops, genOp{Op: "Update", Val: v, Mask: genMask{Nil: true, Sel: []int{}}, settle: true})
 					}
 					ops = append(ops, rest...)
